@@ -60,10 +60,12 @@ def _base_name(e):
 
 
 class _Walker:
-    def __init__(self, func, summaries, callee_of):
+    def __init__(self, func, summaries, callee_of, ret_alias=None):
         self.func = func
         self.summaries = summaries      # qual -> set of mutated formals
         self.callee_of = callee_of      # id(call node) -> list of Site
+        self.ret_alias = ret_alias or {}  # qual -> set of formals the return value may alias
+        self.returned = set()
         self.effects = []
         self.scalars = set(SCALAR_PARAMS)
         for p, d in func.defaults.items():
@@ -106,7 +108,16 @@ class _Walker:
                 return out
             if isinstance(e.func, ast.Attribute) and e.func.attr in VIEW_METHODS:
                 return frozenset((p, "view") for p, _ in self.origins(e.func.value, st))
-            return frozenset()
+            # package function whose return value may alias one of its arguments
+            out = frozenset()
+            for s in self.callee_of.get(id(e), ()):
+                if s.error or not isinstance(s.callee, Func):
+                    continue
+                for fml in self.ret_alias.get(s.callee.qual, ()):
+                    act = s.binding.get(fml)
+                    if isinstance(act, ast.AST):
+                        out |= frozenset((p, "view") for p, _ in self.origins(act, st))
+            return out
         return frozenset()
 
     # -- recording -----------------------------------------------------------
@@ -259,6 +270,11 @@ class _Walker:
             return st
         if isinstance(s, (ast.Return,)):
             self.scan_expr(s.value, st)
+            if s.value is not None:
+                vals = list(s.value.elts) if isinstance(s.value, ast.Tuple) else [s.value]
+                for v in vals:
+                    for p, _ in self.origins(v, st):
+                        self.returned.add(p)
             return st
         if isinstance(s, ast.Raise):
             self.scan_expr(s.exc, st)
@@ -333,15 +349,20 @@ def summaries(repo):
         return _cache[key]
     idx = _site_index(repo)
     summ = {f.qual: {} for f in repo.all_funcs()}
+    ret_alias = {f.qual: set() for f in repo.all_funcs()}
     details = {}
     for _ in range(8):
         changed = False
         for f in repo.all_funcs():
             if f.parent is not None:
                 continue   # nested functions are analysed within their parent
-            w = _Walker(f, summ, idx)
+            w = _Walker(f, summ, idx, ret_alias)
             st = {p: frozenset([(p, "same")]) for p in f.all_params}
             w.run_body(f.node.body, st)
+            ra = {p for p in w.returned if p in f.all_params}
+            if ra != ret_alias[f.qual]:
+                ret_alias[f.qual] = ra
+                changed = True
             cur = {}
             for e in w.effects:
                 if e.param in f.all_params or e.param.startswith("<module"):
